@@ -32,7 +32,7 @@ def prefix_states(x, N, alloc=0, base=1, tier='quick'):
     yield ('onefree%d' % s, ['newr %s fw %d %s' % (x, alloc, vals(base, s)), 'rsv %s %d' % (x, s + 1)], s)
 
 
-FOLLOW_UP = ['get {x} 0', 'pb {x} v77', 'ins {x} 0 v78', 'asn {x} 2 v79', 'clr {x}', 'pb {x} v80', 'del {x}']
+FOLLOW_UP = ['get {x} 0', 'pb {x} v77', 'ins {x} 0 v78', 'asn {x} 2 79', 'clr {x}', 'pb {x} v80', 'del {x}']
 
 
 def single_ops(x, s, N, tier):
@@ -82,7 +82,7 @@ def single_ops(x, s, N, tier):
         for i in al[-1:]:
             ops.append(('rszv %s %d s%d' % (x, n, i), 'rszv-alias'))
         ops.append(('rsv %s %d' % (x, n), 'rsv'))
-        ops.append(('asn %s %d v56' % (x, n), 'asn'))
+        ops.append(('asn %s %d 56' % (x, n), 'asn'))
         ops.append(('asr %s fw %s' % (x, vals(70, n)), 'asr-fw'))
         ops.append(('asr %s in %s' % (x, vals(70, n)), 'asr-in'))
         ops.append(('app %s fw %s' % (x, vals(70, n)), 'app-fw'))
@@ -218,7 +218,7 @@ def random_histories(N, M, seed, count, length=40):
                 elif r < 0.80:
                     n = rng.choice([0, 1, s, s + 2, cap + 1])
                     kind = rng.choice(['fw', 'in'])
-                    line = rng.choice(['asn %s %d v%d' % (nm, n, v), 'asr %s %s %s' % (nm, kind, vals(v, n))])
+                    line = rng.choice(['asn %s %d %d' % (nm, n, v), 'asr %s %s %s' % (nm, kind, vals(v, n))])
                     size[x] = n
                 elif r < 0.86:
                     n = rng.choice([0, 1, 2, 5])
@@ -293,7 +293,7 @@ def narrow_cases(N, M, ms, tier):
             ops.append(('insn %s %d %d v54' % (x, s // 2, n), 'insn'))
             ops.append(('insn %s %d %d v54' % (x, s, n), 'insn-end'))
         for n in sorted(set(c for c in [0, s, ms - 1, ms, ms + 1, 100, 200, 255] if c <= 255)):
-            ops += [('rsz %s %d' % (x, n), 'rsz'), ('rszv %s %d v55' % (x, n), 'rszv'), ('rsv %s %d' % (x, n), 'rsv'), ('asn %s %d v56' % (x, n), 'asn')]
+            ops += [('rsz %s %d' % (x, n), 'rsz'), ('rszv %s %d v55' % (x, n), 'rszv'), ('rsv %s %d' % (x, n), 'rsv'), ('asn %s %d 56' % (x, n), 'asn')]
         for n in sorted(set([1, room, room + 1, ms, ms + 1, 200, 255, 256, 300])):
             if n <= 0:
                 continue
